@@ -430,6 +430,10 @@ func (d *PathDecoder) collectInferredReferenceTargetsForBody(addr lang.Address, 
 		collectLocalAddr = false
 		content          = ast.DecodeBody(body, bodySchema)
 	)
+	if bodySchema == nil {
+		// a nested block type without body schema has no elements to infer
+		return refs
+	}
 	if bAddrSchema.DependentBodySelfRef || bAddrSchema.BodySelfRef {
 		if selfRefBodyRangePtr == nil {
 			// We don't get body range for JSON here
